@@ -245,7 +245,17 @@ func visitInstr(fr *frame, instr ssa.Instruction) continuation {
 	case *ssa.Extract:
 		fr.env[instr] = fr.get(instr.Tuple).(tuple)[instr.Index]
 	case *ssa.Slice:
-		fr.env[instr] = slice(fr.get(instr.X), fr.get(instr.Low), fr.get(instr.High), fr.get(instr.Max))
+		res := slice(fr.get(instr.X), fr.get(instr.Low), fr.get(instr.High), fr.get(instr.Max))
+		if sl, ok := res.([]value); ok {
+			// re-slicing beyond the old length exposes spare capacity that the host's append left
+			// untyped: Go guarantees zero values there
+			if st, ok := instr.Type().Underlying().(*types.Slice); ok {
+				for i := len(sl) - 1; i >= 0 && sl[i] == nil; i-- {
+					sl[i] = zero(st.Elem())
+				}
+			}
+		}
+		fr.env[instr] = res
 	case *ssa.Return:
 		switch len(instr.Results) {
 		case 0:
